@@ -2,7 +2,8 @@
    table/table.go (Table.block: parsing a block from its tail), table/iterator.go (blockIterator).
    Definitions only; proofs in BlockProofs.v.
 
-   Go run-time panics (slice bounds, y.AssertTrue) are explicit: None.
+   Go run-time panics (slice bounds) and y.AssertTrue failures (log.Fatalf: the process exits) are
+   explicit: None.
    Not modelled (transparent layers, exercised by the harness): compression, encryption, the
    block checksum's content (an arbitrary byte string [cs] here), block cache, reference counts. *)
 From Verif Require Import Bytes Uvarint Keys Codec.
